@@ -251,11 +251,32 @@ Definition by_name_ok (c : jcase) (sv : view) (sd : sdecl) : bool :=
         end) [true; false])
     (selectable_leaves (jc_pkg c) (jc_fuel c) sd).
 
+(* Fifth bank: the guard of the CORRESPONDENCE is wider than the guard of the theorems by one class.  own_names_fresh
+   (finding K_getset_once_shadow: an own field declared after an embedded struct that carries its name gets no accessors)
+   is about accessor fields; an EXPORTED own field has no accessors, Go selects it (depth 0) over every promoted field of
+   that name and the JSON code must list it once.  Such structs are judged by Pb (and compared with the model) although
+   C11_key_names / C11_round_trip do not cover them: own_first_x is own_first with exported names exempt. *)
+Fixpoint own_first_x (pkg : pkg_spec) (fuel : nat) (fds : list fdecl) (seen : list ident) : bool :=
+  match fds with
+  | [] => true
+  | fd :: r =>
+      match fd_names fd with
+      | [] => own_first_x pkg fuel r (names_below pkg fuel (fd_ty fd) ++ seen)%list
+      | ns => forallb (fun n => is_exported n || negb (existsb (String.eqb n) seen)) ns && own_first_x pkg fuel r seen
+      end
+  end.
+
+Definition c11_guard_x (pkg : pkg_spec) (fl : ctor_flags) (fuel : nat) (sd : sdecl) : bool :=
+  c02_guard pkg fuel sd && no_excluded_fields sd && own_first_x pkg fuel (sd_fields sd) [] &&
+  embedded_names_fresh pkg fuel sd && accessor_fields_ok fl sd && accessor_names_free fl sd &&
+  no_promoted_json_tags pkg fuel sd && plain_json_tags sd.
+
 Definition guard_js (c : jcase) : bool :=
   nodup_str (jc_order c) &&
   Nat.eqb (length (jstructs_of_order c)) (length (jc_order c)) &&
   (let sv := jspec_view c in
-   forallb (fun sd => c11_guard (jc_pkg c) (jc_flags c) (jc_fuel c) sd &&
+   forallb (fun sd => (c11_guard (jc_pkg c) (jc_flags c) (jc_fuel c) sd ||
+                       c11_guard_x (jc_pkg c) (jc_flags c) (jc_fuel c) sd) &&
                       accessors_visible (jc_pkg c) sv (jc_fuel c) sd &&
                       not_self_embedded (jc_pkg c) (jc_fuel c) sd &&
                       complete_view c sd && by_name_ok c sv sd &&
